@@ -49,6 +49,15 @@ Proof.
   - auto.
 Qed.
 
+Lemma destroy_w : forall ss : sess,
+  ag (s_destroy ss) = idle0 /\
+  (on_complete (ag ss) = true -> In (owner ss, false, []) (events (s_destroy ss))) /\
+  (on_complete (ag ss) = false -> events (s_destroy ss) = events ss /\ next_id (s_destroy ss) = next_id ss).
+Proof.
+  intros [a o c n ev]; cbn [ag owner owner_act events next_id]. unfold s_destroy, fire, abort; cbn [ag owner owner_act next_id events].
+  split; [reflexivity|]. split; intros H; rewrite H; cbn; auto.
+Qed.
+
 Lemma nested_w : forall (ss : sess) (a : answer),
   on_complete (ag ss) = true -> on_complete (step false (ag ss) a) = false -> owner_act ss <> ANone ->
   events (s_reply a ss) =
